@@ -1035,7 +1035,7 @@ fn run_case_t<T: Pay>(ops: &[Vec<u64>]) -> Vec<Vec<u64>> {
                     }
                 }
             }
-            6 | 7 | 8 | 10 | 11 => match send(t, Cmd::Reserve) {
+            6 | 7 | 8 | 10 | 11 | 12 => match send(t, Cmd::Reserve) {
                 Msg::Done(Res::Unit) => {
                     c.owned[t] -= 1;
                     c.pending[t] = Some(kind);
